@@ -21,6 +21,9 @@ func VerifC01WriteSequence() {
 	vf.Summarise("github.com/berquerant/crd/zz_verif/spec.*")
 	vf.Summarise("github.com/berquerant/crd/zz_verif/crdx.*")
 	n := vf.NondetIntRange("instances", 1, vf.Param("C01.maxInstances", 3))
+	// three or more instances: one fraction, no tempo or dynamic of their own (keys, chords and
+	// rests in every combination stay) — the full product would be ~10^6 paths
+	small := n >= 3
 	insts := make([]op.Instance, n)
 	type expect struct {
 		kind           int
@@ -43,14 +46,14 @@ func VerifC01WriteSequence() {
 		f1 := fr[0]
 		in.Values = []note.Value{{Rat: util.NewRat(f1[0], f1[1])}}
 		vnum, vden := int64(f1[0]), int64(f1[1])
-		if vf.NondetIntRange("fractions", 1, 2) == 2 {
+		if !small && vf.NondetIntRange("fractions", 1, 2) == 2 {
 			f2 := fr[1]
 			in.Values = append(in.Values, note.Value{Rat: util.NewRat(f2[0], f2[1])})
 			vnum, vden = vnum*int64(f2[1])+int64(f2[0])*vden, vden*int64(f2[1])
 		}
-		hasBPM := vf.NondetIntRange("hasBPM", 0, 1) == 1
+		hasBPM := !small && vf.NondetIntRange("hasBPM", 0, 1) == 1
 		hasKey := vf.NondetIntRange("hasKey", 0, 1) == 1
-		hasVel := vf.NondetIntRange("hasVel", 0, 1) == 1
+		hasVel := !small && vf.NondetIntRange("hasVel", 0, 1) == 1
 		if hasBPM {
 			b := op.BPM(vf.NondetUint("bpm"))
 			vf.Assume(b >= 1)
